@@ -113,7 +113,7 @@ META["C02"] = {
 
 META["C05"] = {
     "title": "Flattening delivers every inner item once and honours the concurrency limit",
-    "rule": "cases = (spelling merge_all(n)|concat_all|flatten|flat_map|concat_map, local|_threads, table of k inner observables (quick k<=3, thorough k<=5) each cold-synchronous (create emitting its script, incl. empty and failing ones) or hot (Subject driven later), merged timeline of outer events, hot-inner events and completions). The outer is a hot Subject emitting the indices 0..k once each; all items carry unique ids; every inner is wrapped in a tracked spy that logs subscribe / terminal / unsubscribe. A deterministic battery builds the queued-then-started shapes (hot inner first, cold/hot inners queued behind the limit); the rest are seeded random interleavings biased towards early outer items. Non-trivial: at least one inner was started from the queue when another completed, or two inners were live at once; distinct = hash(case).",
+    "rule": "cases = (spelling merge_all(n)|concat_all|flatten|flat_map|concat_map, local|_threads, table of k inner observables (quick k<=3, thorough k<=5) each cold-synchronous (create emitting its script, incl. empty and failing ones) or hot (Subject driven later), merged timeline of outer events, hot-inner events and completions). The outer is a hot Subject emitting the indices 0..k once each; all items carry unique ids; every inner is wrapped in a tracked spy that logs subscribe / terminal / unsubscribe. A deterministic battery builds the queued-then-started shapes (hot inner first, cold/hot inners queued behind the limit); the rest are seeded random interleavings biased towards early outer items. A third battery (mixed_cases_with_timed_inners) mixes cold, hot and TIMED inners (interval.take, timer) on the virtual clock under prompt/late schedules and fifo/any task order (and the real LocalPool) and is judged by invariants read off the tracked inners: output = what the inners produced, in that order, each once; live inners <= n; completion exactly when the outer and all inners completed. Non-trivial: at least one inner was started from the queue when another completed, or two inners were live at once; distinct = hash(case).",
     "assumptions": COMMON_ASSUME + [
         "exact sequential reference model of merge_all(n) (running set, FIFO queue, completion iff outer done and nothing running or queued, first error wins); a hot inner loses events emitted while it is not subscribed",
         "single-threaded drive here; the two-thread interleavings of the _threads forms are explored by C10's baton scenarios",
